@@ -84,6 +84,34 @@ func init() {
 		}
 		return "ok"
 	}
+	// law: the texts of a whole batch, marshalled first and parsed afterwards (with other
+	// renderings in between), give back the batch: a marshalled text is the caller's to keep
+	versionImpl["law-verbatch"] = func(a []string) string {
+		var vs []version.Version
+		for _, h := range a {
+			if v, err := version.Parse(core.MustUnHex(h)); err == nil {
+				vs = append(vs, v)
+			}
+		}
+		texts := make([][]byte, len(vs))
+		ctls := make([]string, len(vs))
+		for i := range vs {
+			texts[i], _ = vs[i].MarshalText()
+			ctls[i], _ = vs[i].MarshalControl()
+			_ = vs[(i*7+3)%len(vs)].String()
+			_ = vs[(i*5+1)%len(vs)].StringWithoutEpoch()
+		}
+		for i := range vs {
+			var x, y version.Version
+			if err := x.UnmarshalText(texts[i]); err != nil || x != vs[i] {
+				return fmt.Sprintf("FAIL the text marshalled for %v reads %q after the rest of the batch was rendered (-> %v %v)", vs[i], texts[i], x, err)
+			}
+			if err := y.UnmarshalControl(ctls[i]); err != nil || y != vs[i] {
+				return fmt.Sprintf("FAIL the control text marshalled for %v reads %q afterwards", vs[i], ctls[i])
+			}
+		}
+		return "ok"
+	}
 	// law: preorder laws on a triple, evaluated on the implementation alone
 	versionImpl["law-vercmp3"] = func(a []string) string {
 		x, y, z := argVersion(a[0:3]), argVersion(a[3:6]), argVersion(a[6:9])
@@ -182,7 +210,11 @@ func genWFVersion(r *core.Rand) (string, string, string, bool) {
 		case 1:
 			epoch = strconv.Itoa(r.Intn(100))
 		case 2:
-			epoch = strings.Repeat("0", r.Range(1, 3)) + strconv.Itoa(r.Intn(10))
+			// zero padding of any length: the epoch is a number, "0000000000000000000007" is 7
+			epoch = strings.Repeat("0", r.Pick2(r.Range(1, 3), r.Range(15, 45))) + r.Pick([]string{strconv.Itoa(r.Intn(10)), "9223372036854775807", strconv.FormatUint(r.U64()>>uint(1+r.Intn(62)), 10)})
+			if r.Chance(1, 6) {
+				epoch = "+" + epoch
+			}
 		case 3:
 			epoch = "9223372036854775807"
 		case 4:
@@ -253,6 +285,14 @@ func streamVerparse(g *core.G) {
 			p := r.Intn(len(s))
 			emit(s[:p] + s[p+1:])
 		}
+	}
+	for i := 0; i < n/40; i++ {
+		var batch []string
+		for k := r.Range(2, 12); k > 0; k-- {
+			e, u, rv, hr := genWFVersion(r)
+			batch = append(batch, core.Hex(renderWF(e, u, rv, hr)))
+		}
+		g.Emit("law-verbatch", batch...)
 	}
 	// String() on arbitrary structs (not only parser output)
 	for i := 0; i < n/4; i++ {
@@ -335,6 +375,12 @@ func versionReadable2(op string, a []string) string {
 		return fmt.Sprintf("%s(%q)", op, core.MustUnHex(a[0]))
 	case "verstr", "verstr0":
 		return op + showVer(a)
+	case "law-verbatch":
+		var xs []string
+		for _, h := range a {
+			xs = append(xs, core.MustUnHex(h))
+		}
+		return fmt.Sprintf("law-verbatch(%q)", xs)
 	case "law-vercmp3":
 		return "laws on " + showVer(a[0:3]) + " " + showVer(a[3:6]) + " " + showVer(a[6:9])
 	case "law-versort":
